@@ -17,6 +17,7 @@ CONSTANTS
   CancelWakes = FALSE
   JoinWatches = TRUE
   CloseReaderOnKill = TRUE
+  ExitChecked = TRUE
 SYMMETRY Perm
 INVARIANT AtMostOnce
 INVARIANT CancelMeansNeverRun
